@@ -198,6 +198,38 @@ pub fn run(ctx: &mut Ctx) {
         ctx.eval(b.filter(|_| nontrivial).map(|b| fnv64(&b)));
     });
 
+    // (c') very long attribute lists: hundreds to thousands of attributes, one kind repeated or a
+    // few kinds alternating (counters, indices and offsets beyond 255 / 4096)
+    let n = ctx.n(60, 4_000);
+    ctx.cases("many-attributes", n, |ctx, case, rng| {
+        let small = GenCfg { max_blob: 8 };
+        let count = *rng.pick(&[255usize, 256, 257, 300, 511, 512, 1000, 2000, 4095, 4096, 5000]);
+        let nk = 1 + rng.usize_below(3);
+        let kinds: Vec<usize> = (0..nk).map(|_| rng.usize_below(gen::ORDINARY_KINDS)).collect();
+        let mut attrs: Vec<LAttr> = Vec::with_capacity(count + 3);
+        let mut bytes = 0usize;
+        for i in 0..count {
+            let a = gen::attr_of_kind(rng, kinds[i % nk], &small);
+            let l = wire::attr_value(&a, &[0; 12], &mut wire::Zero).len();
+            bytes += 4 + l + (4 - l % 4) % 4;
+            if bytes > 64_000 {
+                break;
+            }
+            attrs.push(a);
+        }
+        let tb = rng.below(8) as u8;
+        attrs.extend(gen::tail(tb));
+        let key = if tb & 3 != 0 { Some(gen::key_spec(rng)) } else { None };
+        let m = LMsg { method: gen::method(rng), class: rng.below(4) as u8, txid: gen::txid(rng), attrs, key };
+        ctx.count("many-attributes.messages");
+        ctx.count_n("many-attributes.attributes", m.attrs.len() as u64);
+        let b = roundtrip(ctx, &m, rng);
+        if ctx.want_sample() && case % 29 == 1 {
+            ctx.sample(J::obj().set("attributes", J::u(m.attrs.len())).set("kinds", J::arr(kinds.iter().map(|k| J::u(*k)))));
+        }
+        ctx.eval(b.map(|b| fnv64(&b)));
+    });
+
     // (d) large values: blobs up to 60 KiB (sizes near the 16-bit limit are C14's business)
     let n = ctx.n(200, 12_000);
     ctx.cases("large", n, |ctx, _case, rng| {
